@@ -2707,6 +2707,7 @@ UNITS = [
     ('ZipT', [('@tuple/zip.rs', ['Zip'])]),
     ('RaceT', [('@tuple/race.rs', ['Race'])]),
     ('ChainT', [('@tuple/chain.rs', ['Chain'])]),
+    ('RaceOkT', [('@tuple/race_ok.rs', ['RaceOk'])]),
     ('WaitF', [('src/future/wait_until.rs', ['State', 'WaitUntil'])]),
     ('WaitS', [('src/stream/wait_until.rs', ['State', 'WaitUntil'])]),
 ]
@@ -2715,7 +2716,7 @@ SKIP_FNS = {('InlineWakerArray', 'new'), ('InlineWakerVec', 'new')}
 GROUPS = {'Std': ['StdArr', 'StdVec'], 'Dir': ['DirArr', 'DirVec'], 'Idx': ['Idx'], 'PS': ['PS'], 'Grp': ['GrpF', 'GrpS'],
           'Fam': ['MergeV', 'RaceV'], 'Fam2': ['JoinV'], 'Fam3': ['TryJoinV'], 'Fam4': ['ZipV'], 'Fam5': ['ChainV'],
           'Arr1': ['JoinA'], 'Arr2': ['TryJoinA'], 'Arr3': ['MergeA'], 'Arr4': ['ZipA'], 'Arr5': ['ChainA'], 'Arr6': ['RaceA'], 'Arr7': ['RaceOkA'], 'Wait': ['WaitF', 'WaitS'],
-          'Tup1': ['JoinT'], 'Tup2': ['TryJoinT'], 'Tup3': ['MergeT'], 'Tup4': ['ZipT'], 'Tup5': ['RaceT'], 'Tup6': ['ChainT']}
+          'Tup1': ['JoinT'], 'Tup2': ['TryJoinT'], 'Tup3': ['MergeT'], 'Tup4': ['ZipT'], 'Tup5': ['RaceT'], 'Tup6': ['ChainT'], 'Tup7': ['RaceOkT']}
 GROUP_IMPORTS = {'Std': ['Fc.Kernel'], 'Dir': ['Fc.Kernel'], 'Grp': ['FcGen.KSrcStd', 'FcGen.KSrcPS', 'Fc.RustEnv'],
                  'Fam': ['FcGen.KSrcStd', 'FcGen.KSrcPS', 'FcGen.KSrcIdx', 'Fc.RustEnv'],
                  'Fam2': ['FcGen.KSrcStd', 'FcGen.KSrcPS', 'Fc.RustEnv'],
@@ -2728,16 +2729,16 @@ GROUP_IMPORTS = {'Std': ['Fc.Kernel'], 'Dir': ['Fc.Kernel'], 'Grp': ['FcGen.KSrc
                  'Arr7': ['FcGen.KSrcPS', 'Fc.RustEnv'], 'Wait': ['Fc.RustEnv'],
                  'Tup1': ['FcGen.KSrcStd', 'FcGen.KSrcPS', 'Fc.RustEnv'], 'Tup2': ['FcGen.KSrcStd', 'FcGen.KSrcPS', 'Fc.RustEnv'],
                  'Tup3': ['FcGen.KSrcStd', 'FcGen.KSrcPS', 'FcGen.KSrcIdx', 'Fc.RustEnv'],
-                 'Tup4': ['FcGen.KSrcStd', 'FcGen.KSrcPS', 'Fc.RustEnv'], 'Tup5': ['FcGen.KSrcIdx', 'Fc.RustEnv'], 'Tup6': ['Fc.RustEnv']}
+                 'Tup4': ['FcGen.KSrcStd', 'FcGen.KSrcPS', 'Fc.RustEnv'], 'Tup5': ['FcGen.KSrcIdx', 'Fc.RustEnv'], 'Tup6': ['Fc.RustEnv'], 'Tup7': ['FcGen.KSrcPS', 'FcGen.KSrcIdx', 'Fc.RustEnv']}
 GROUP_DEPS = {'Grp': ['Std', 'PS'], 'Fam': ['Std', 'PS', 'Idx'], 'GrpPoll': ['Grp'], 'RaceV': ['Fam'], 'MergeV': ['Fam'], 'JoinV': ['Fam2'], 'TryJoinV': ['Fam3'], 'ChainV': ['Fam5', 'Fam4'], 'ZipV': ['Fam4', 'Fam5'], 'Fam2': ['Std', 'PS'], 'Fam3': ['Std', 'PS'], 'Fam4': ['Std', 'PS'], 'Fam5': [],
               'Arr1': ['Std', 'PS'], 'Arr2': ['Std', 'PS'], 'Arr3': ['Std', 'PS', 'Idx'], 'Arr4': ['Std', 'PS'], 'Arr5': [],
-              'Arr6': ['Idx'], 'Arr7': ['PS'], 'Tup1': ['Std', 'PS'], 'Tup2': ['Std', 'PS'], 'Tup3': ['Std', 'PS', 'Idx'], 'Tup4': ['Std', 'PS'], 'Tup5': ['Idx'], 'Tup6': [],
+              'Arr6': ['Idx'], 'Arr7': ['PS'], 'Tup1': ['Std', 'PS'], 'Tup2': ['Std', 'PS'], 'Tup3': ['Std', 'PS', 'Idx'], 'Tup4': ['Std', 'PS'], 'Tup5': ['Idx'], 'Tup6': [], 'Tup7': ['PS', 'Idx'],
               # the array proofs reuse the container-independent lemmas of the Vec proof of the SAME family (the lemma files
               # import that family's Vec statements, hence its generated file)
               'JoinA': ['Arr1', 'Fam2'], 'TryJoinA': ['Arr2', 'Fam3'], 'MergeA': ['Arr3', 'Fam'], 'ZipA': ['Arr4'],
               'ChainA': ['Arr5', 'Idx'], 'RaceA': ['Arr6', 'Fam'], 'RaceOkA': ['Arr7'],
               # the tuple ties reuse the container-independent lemmas of the Vec proof of the same family
-              'JoinT': ['Tup1', 'Fam2'], 'TryJoinT': ['Tup2', 'Fam3'], 'MergeT': ['Tup3', 'Fam'], 'ZipT': ['Tup4', 'Fam4'], 'RaceT': ['Tup5', 'Fam'], 'ChainT': ['Tup6', 'Fam5', 'Fam4'],
+              'JoinT': ['Tup1', 'Fam2'], 'TryJoinT': ['Tup2', 'Fam3'], 'MergeT': ['Tup3', 'Fam'], 'ZipT': ['Tup4', 'Fam4'], 'RaceT': ['Tup5', 'Fam'], 'ChainT': ['Tup6', 'Fam5', 'Fam4'], 'RaceOkT': ['Tup7', 'Arr7', 'Fam'],
               'JoinVD': ['Fam2D', 'Fam2', 'Dir'], 'JoinAD': ['Arr1D', 'Arr1', 'Fam2', 'Dir'],
               'TryJoinVD': ['Fam3D', 'Fam3', 'Dir'], 'TryJoinAD': ['Arr2D', 'Arr2', 'Fam3', 'Dir'],
               'MergeVD': ['FamD', 'Fam', 'Dir'], 'MergeAD': ['Arr3D', 'Arr3', 'Fam', 'Dir'],
@@ -2749,7 +2750,7 @@ DIR_FLAVOUR = {'Grp': ['GrpF', 'GrpS'], 'Fam': ['MergeV', 'RaceV'], 'Fam2': ['Jo
 # groups of tie theorems that have no generated file of their own (they talk about functions of another group's file)
 VIRTUAL_GROUPS = {'GrpPoll': ['GrpF', 'GrpS'], 'RaceV': ['RaceV'], 'MergeV': ['MergeV'], 'JoinV': ['JoinV'], 'ChainV': ['ChainV'], 'ZipV': ['ZipV'], 'TryJoinV': ['TryJoinV'],
                   'JoinA': ['JoinA'], 'TryJoinA': ['TryJoinA'], 'MergeA': ['MergeA'], 'ZipA': ['ZipA'], 'ChainA': ['ChainA'],
-                  'RaceA': ['RaceA'], 'RaceOkA': ['RaceOkA'], 'JoinT': ['JoinT'], 'TryJoinT': ['TryJoinT'], 'MergeT': ['MergeT'], 'ZipT': ['ZipT'], 'RaceT': ['RaceT'], 'ChainT': ['ChainT'],
+                  'RaceA': ['RaceA'], 'RaceOkA': ['RaceOkA'], 'JoinT': ['JoinT'], 'TryJoinT': ['TryJoinT'], 'MergeT': ['MergeT'], 'ZipT': ['ZipT'], 'RaceT': ['RaceT'], 'ChainT': ['ChainT'], 'RaceOkT': ['RaceOkT'],
                   # the no_std / alloc-only flavour (FcProps/KTie<Fam>{V,A}D.lean): the same translated functions
                   'JoinVD': ['JoinV'], 'JoinAD': ['JoinA'], 'TryJoinVD': ['TryJoinV'], 'TryJoinAD': ['TryJoinA'],
                   'MergeVD': ['MergeV'], 'MergeAD': ['MergeA'], 'ZipVD': ['ZipV'], 'ZipAD': ['ZipA'],
@@ -2843,6 +2844,7 @@ REQUIRED = {
     'JoinT': ['JoinT.Join.poll', 'JoinT.Join.drop', 'JoinT.Join.new'],
     'TryJoinT': ['TryJoinT.TryJoin.poll', 'TryJoinT.TryJoin.drop', 'TryJoinT.TryJoin.new'],
     'Tup5': ['RaceT.Race.poll'], 'RaceT': ['RaceT.Race.poll'],
+    'Tup7': ['RaceOkT.RaceOk.poll', 'RaceOkT.RaceOk.drop'], 'RaceOkT': ['RaceOkT.RaceOk.poll', 'RaceOkT.RaceOk.drop'],
     'Tup6': ['ChainT.Chain.poll_next'], 'ChainT': ['ChainT.Chain.poll_next'],
     'Tup4': ['ZipT.Zip.poll_next', 'ZipT.Zip.drop', 'ZipT.Zip.new'], 'ZipT': ['ZipT.Zip.poll_next', 'ZipT.Zip.drop', 'ZipT.Zip.new'],
     'Tup3': ['MergeT.Merge.poll_next', 'MergeT.Merge.new'], 'MergeT': ['MergeT.Merge.poll_next', 'MergeT.Merge.new'],
